@@ -744,3 +744,73 @@ func HarnessNEShape() {
 	}
 	verifrt.Cover("NE: end of shaped history")
 }
+
+func init() {
+	VerifHarnesses["HarnessNEIgnored"] = HarnessNEIgnored
+}
+
+// HarnessNEIgnored: events that carry no press or release — the kernel's auto-repeat of a held key (value 2) and
+// events of other types (EV_SYN, EV_MSC, EV_REL ... with arbitrary code and value) — arrive in an ARBITRARY
+// invariant state: nothing is sent, no signal is raised and the playing state (trackers, pressed-key set, holder
+// counters, transposition, channel, mapping) is exactly as before, so every per-step rule and invariant of the
+// other harnesses is unaffected by them (C02 silent events, C14 pressed-key set, C01/C03 invariants).
+func HarnessNEIgnored() {
+	c := buildNEConfig()
+	out := make(chan midi.Event, 256)
+	sigs := make(chan os.Signal, 4)
+	d := newTestDevice(c.cfg, out, sigs)
+	s := havocState(&d, c)
+	wch, wn := verifrt.U8("w.ch"), verifrt.U8("w.note")
+	verifrt.Assume(wch <= 15 && wn <= 127)
+	preCnt := d.activeNotesCounter[wch][wn]
+	var preTr [maxKeys]bool
+	var preV [maxKeys][2]byte
+	for k := 0; k < c.K; k++ {
+		preV[k], preTr[k] = d.noteTracker[noteCodes[k]]
+	}
+	preLen, preKeys, preAct := len(d.noteTracker), len(d.keyTracker), len(d.actionTracker)
+
+	var ev *input.InputEvent
+	if verifrt.Param("REPEAT", 1) == 1 {
+		// auto-repeat of a key that is held (any note, action or unmapped key)
+		idx := verifrt.U8("ev.idx")
+		code := allCode(idx, c.K)
+		heldNow := false
+		for k := 0; k < c.K; k++ {
+			heldNow = heldNow || (code == noteCodes[k] && s.held[k])
+		}
+		for a := 0; a < nActions; a++ {
+			heldNow = heldNow || (code == actionCodes[a] && s.aheld[a])
+		}
+		heldNow = heldNow || (code == otherCode && s.oheld)
+		verifrt.Assume(heldNow) // the kernel repeats only keys that are down
+		ev = keyEvent(code, EV_KEY_REPEAT)
+		verifrt.Cover("C14: auto-repeat of a held key")
+	} else {
+		t := verifrt.U8("ev.type")
+		verifrt.Assume(evdev.EvType(t) != evdev.EV_KEY && evdev.EvType(t) != evdev.EV_ABS)
+		ev = keyEvent(evdev.EvCode(verifrt.U16("ev.code")), verifrt.I32("ev.value"))
+		ev.Event.Type = evdev.EvType(t)
+		verifrt.Cover("C02: event of another type")
+	}
+	d.processEvent(ev)
+
+	verifrt.Assert(len(out) == 0, "C02: key auto-repeat and events of other types emit nothing")
+	verifrt.Assert(len(sigs) == 0, "C14: no termination signal from an auto-repeat or an event of another type")
+	same := len(d.noteTracker) == preLen && len(d.keyTracker) == preKeys && len(d.actionTracker) == preAct &&
+		d.activeNotesCounter[wch][wn] == preCnt &&
+		d.octave == s.octave && d.semitone == s.semi && d.channel == s.channel && d.mapping == s.mapping && d.ccLearning == s.learn
+	for k := 0; k < c.K; k++ {
+		v, tr := d.noteTracker[noteCodes[k]]
+		same = same && tr == preTr[k] && (!tr || v == preV[k])
+		_, in := d.keyTracker[noteCodes[k]]
+		same = same && in == s.held[k]
+	}
+	for a := 0; a < nActions; a++ {
+		_, in := d.keyTracker[actionCodes[a]]
+		same = same && in == s.aheld[a]
+	}
+	_, in := d.keyTracker[otherCode]
+	same = same && in == s.oheld
+	verifrt.Assert(same, "C14/INVk: key auto-repeat and events of other types leave the pressed-key set and the playing state untouched")
+}
